@@ -31,6 +31,38 @@ def init():
     _INIT = True
 
 
+def import_step(modname):
+    """Import a ninja-step module in this process: several steps define the same absl flag
+    (--output_file), which only works in separate processes; duplicates are ignored here."""
+    import importlib
+    import sys
+
+    if modname in sys.modules:
+        return sys.modules[modname]
+    from absl import flags
+
+    saved = {}
+    for fn in ("DEFINE_string", "DEFINE_bool", "DEFINE_integer", "DEFINE_float", "DEFINE_enum", "DEFINE_list", "DEFINE_boolean"):
+        orig = getattr(flags, fn)
+        saved[fn] = orig
+
+        def wrap(orig):
+            def f(*a, **k):
+                try:
+                    return orig(*a, **k)
+                except flags.DuplicateFlagError:
+                    return None
+
+            return f
+
+        setattr(flags, fn, wrap(orig))
+    try:
+        return importlib.import_module(modname)
+    finally:
+        for fn, orig in saved.items():
+            setattr(flags, fn, orig)
+
+
 def picosvg_normal(raw_svg, clip_to_viewbox=True):
     """What the `picosvg` build step leaves on disk for this source."""
     init()
@@ -106,16 +138,16 @@ def build(sources, overrides=None, use_filenames=False, pngs=None, normalised=No
     try:
         inputs, picos = [], []
         if use_filenames:
-            from nanoemoji.write_glyphmap import _glyphmappings
+            _glyphmappings = import_step("nanoemoji.write_glyphmap")._glyphmappings
 
-            names = [s.get("name") or filename_for(s["codepoints"]) for s in sources]
+            names = [s.get("name") or filename_for(s["codepoints"]) for s in sources if s["codepoints"]]
             maps = list(_glyphmappings(names))
             by_name = {str(m.svg_file): m for m in maps}
         for i, s in enumerate(sources):
             cps = tuple(s["codepoints"])
             gname = glyph_name(cps) if cps else s.get("glyph_name", ".notdef")
             fname = s.get("name") or filename_for(cps)
-            if use_filenames:
+            if use_filenames and cps:
                 m = by_name[fname]
                 cps, gname = m.codepoints, m.glyph_name
             svg = None
